@@ -32,6 +32,9 @@ def buildArgs : List Char → List Tok → Option (List Arg × List Target)
     | 'Z', .num v :: r => cont [.mpz v] [] r
     | 'Q', .num n :: .num d :: r => cont [.mpq n d] [] r
     | 'N', .vec l :: .num n :: r => cont [.limbs l, .int n] [] r
+    | 'F', .num bits :: .num e :: .num sz :: .vec l :: r =>
+        -- __GMPF_BITS_TO_PREC: (max (53, bits) + 2*64 - 1) / 64
+        cont [.mpf ((max 53 bits.toNat + 127) / 64) (decide (sz < 0)) l (if l.isEmpty then 0 else e)] [] r
     | 'n', r => cont [.cell] [.cell 0] r
     | 'l', r => cont [.cell] [.cell sentinel] r
     | 'z', r => cont [.mpzOut] [.mpz] r
@@ -251,6 +254,9 @@ def handle : Handler
   | "gmp_snprintf_Q", .num sz :: .str f :: r => some (oneConv 'Q' sz.toNat f r)
   | "gmp_snprintf_N", .num sz :: .str f :: r => some (oneConv 'N' sz.toNat f r)
   | "gmp_snprintf_M", .num sz :: .str f :: r => some (oneConv 'M' sz.toNat f r)
+  | "gmp_snprintf_F", .num sz :: .str f :: r =>
+      let ns := ((toChars f).filter (· = '*')).length
+      some (fam .sn sz.toNat f (toBytes (List.replicate ns 'i' ++ ['F'])) r)
   | "gmp_snprintf", .num sz :: .str f :: .str t :: r => some (fam .sn sz.toNat f t r)
   | "gmp_snprintf_mixed", .num sz :: .str f :: .str t :: r => some (fam .sn sz.toNat f t r)
   | "gmp_vsnprintf", .num sz :: .str f :: .str t :: r => some (fam .sn sz.toNat f t r)
